@@ -28,8 +28,10 @@ RULE = ("cases = (a) documented spellings of boundary and random IPv4 addresses 
         "character, swapped or unbalanced brackets, extra colons, trailing newline, digits of other scripts, "
         "5-part quads, 256, widths -1/33/129/huge, 4300/4301-digit numbers); (c) printable garbage over an "
         "alphabet biased to the syntax characters; (d) host names answered by a fake resolver table; "
-        "(e) --listen / --to-ns forms, (f) [user[:password]@]host[:port] built from parts that contain ':' and "
-        "'@'; (g) every store-type option given in SSHUTTLE_ARGS, on the command line, or both; plus library "
+        "(e) --listen / --to-ns forms, (f) [user[:password]@]host[:port] built from parts: every one of "
+        "/ ? # [ ] % @ : space ; & = + \\ ~ ! $ , at the start, middle and end of the user name and of the password "
+        "(exhaustive) and random mixtures of them, crossed with name / dotted quad / bare and bracketed IPv6 hosts "
+        "and ports; (g) every store-type option given in SSHUTTLE_ARGS, on the command line, or both; plus library "
         "streams (regex engine, glibc numeric getaddrinfo, inet_aton/pton/ntop, ipaddress, int()). A case is "
         "non-trivial when it reached getaddrinfo, or was rejected by a specific check, or decomposed a "
         "multi-part specification; distinct = distinct input string per stream")
@@ -719,6 +721,42 @@ def hostport_cases(ctx, R, rng):
              ('2001:db8:0:0:0:0:0:1', '2001:db8::1', None), ('[::ffff:1.2.3.4]', '::ffff:102:304', '::ffff:102:304'),
              ('my-alias', 'my-alias', 'my-alias'), ('h_1', 'h_1', 'h_1')]
     ports = [None, 0, 1, 22, 2222, 65535]
+
+    def built(u, pw, htxt, canon_noport, canon_port, port, what):
+        """one specification built from its parts; the expectation is the parts themselves
+        (the last '@' ends the user info, the first ':' inside it ends the user name)"""
+        if canon_port is None:
+            port = None          # a bare IPv6 literal cannot carry a port
+        s = ('' if u is None else u + ('' if pw is None else ':' + pw) + '@') + htxt + ('' if port is None else ':%d' % port)
+        if not s:
+            return
+        host_exp = canon_noport if (port is None) else canon_port
+        ctx.hist('hostport:' + what)
+        cases.append(hostport_case(ctx, R, s, (u, pw if pw else None, port, host_exp)))
+
+    # every delimiter-like printable character in every position of the user name and of the
+    # password (exhaustive, simplest host first so that a failure is reported on a short text)
+    special = ['/', '?', '#', '[', ']', '%', '@', ':', ' ', ';', '&', '=', '+', '\\', '~', '!', '$', ',']
+
+    def placed(base, c):
+        return [c + base, base[:len(base) // 2] + c + base[len(base) // 2:], base + c, c, c + c]
+    for (htxt, cn, cp), port in [(hosts[0], None), (hosts[0], 22), (hosts[2], 2222), (hosts[4], 22), (hosts[3], None),
+                                 (hosts[5], None), (hosts[1], 22)]:
+        for c in special:
+            if c != ':':         # a user name cannot contain ':' (the first ':' ends it)
+                for u in placed('user', c):
+                    built(u, None, htxt, cn, cp, port, 'special-user')
+                    built(u, 'pw', htxt, cn, cp, port, 'special-user')
+            for pw in placed('secret', c):
+                built('user', pw, htxt, cn, cp, port, 'special-password')
+                built('', pw, htxt, cn, cp, port, 'special-password')
+    # random mixtures of them
+    mix = ''.join(special) + 'abz09'
+    for _ in range(ctx.scale(600, 8000)):
+        u = ''.join(rng.choice(mix) for _ in range(rng.randrange(0, 7))).replace(':', '')
+        pw = rng.choice([None, ''.join(rng.choice(mix) for _ in range(rng.randrange(0, 9)))])
+        htxt, cn, cp = rng.choice(hosts)
+        built(u, pw, htxt, cn, cp, rng.choice(ports), 'special-mix')
     for _ in range(ctx.scale(1500, 15000)):
         u = rng.choice(users + [None, None])
         pw = rng.choice(pws)
